@@ -15,13 +15,14 @@ TRUSTED = [
     'symbol models tied by correspondence',
 ]
 ASSUMPTIONS = []
-PARTIAL = 'segment-level well-formedness (decodeNumeric_sound etc., C17) is proved; whole-description re-encodability is exercised'
+PARTIAL = 'QR: well-formedness of every decoded description and re-encodability whenever it fits are theorems; Micro QR / rMQR are exercised; over-full descriptions from truncated final characters are the recorded finding D16'
 MANIFEST = {
-    'technique': 'Lean 4: decoder soundness per mode (accepted data is valid for its mode: C17) + differential runs on structurally valid symbols with arbitrary data codewords',
-    'text': ('Per-mode soundness is a theorem (C17: whatever decodeNumeric/Alphanumeric accept consists of characters of the mode, unassigned kanji codes are rejected). Props/C07.lean '
-             'adds that a successful decode reports a version, level and mask in range. Re-encodability of whole descriptions (count overruns, truncated characters, reserved modes) is '
-             'exercised by wrapping arbitrary data codewords into structurally valid symbols with the reference encoder, decoding, re-encoding and decoding again.'),
-    'note': 'Trusted: Lean kernel; reference encoder; models tied by correspondence. Known findings about truncated final characters are recorded in known-findings.txt.',
+    'technique': 'Lean 4: every description the QR decoder model returns is well-formed (fields in range, version = size, modes supported, bytes valid per mode) and, if it fits, re-encodes and decodes to itself (via the round-trip theorem); arbitrary-codeword symbols by differential runs',
+    'text': ('QRV/Props/C07.lean proves for the QR decoder model: whatever DecodeBitmap returns has the version given by the bitmap size, level and mask in range, and only segments of supported modes whose bytes are '
+             'valid for the mode with a representable count (numeric digits, the 45-set, well-formed UTF-8 of kanji-representable characters; unassigned kanji codes are rejected: C17); and every such description '
+             'that fits the symbol re-encodes and decodes to the identical description (from roundtrip_QR). Descriptions that do not fit arise only from the recorded finding D16. Micro QR and rMQR and the count-overrun / '
+             'out-of-range-group cases are exercised on structurally valid symbols with arbitrary data codewords built by the reference encoder.'),
+    'note': 'Trusted: Lean kernel; reference encoder wrapping arbitrary codewords; models tied by correspondence.',
 }
 
 
